@@ -95,16 +95,17 @@ class C17Acpc(Monitor):
             return
         if any(type(o).__name__ == 'RunoutCountSelection' and o.runout_count not in (None, 1) for o in s.operations):
             return
-        if any(type(o).__name__ == 'HoleCardsShowingOrMucking' and o.hole_cards and not all(o.hole_cards) for o in s.operations):
-            return
         dealt = {}
         for o in s.operations:
             if type(o).__name__ == 'HoleDealing':
                 dealt.setdefault(o.player_index, []).extend(o.cards)
         if any(type(o).__name__ == 'HoleCardsShowingOrMucking' and o.hole_cards
-               and any(c not in dealt.get(o.player_index, []) for c in o.hole_cards) for o in s.operations):
+               and any(c and c not in dealt.get(o.player_index, []) for c in o.hole_cards) for o in s.operations):
             return      # a show that names other cards than the player was dealt rewrites his hand: the
                         # history no longer tells the cards the hand was played with
+        if any(type(o).__name__ == 'HoleCardsShowingOrMucking' and o.hole_cards
+               and len([c for c in o.hole_cards if c]) != len({c for c in o.hole_cards if c}) for o in s.operations):
+            return      # a show naming one card twice (accepted only past a dealability warning): not a hand of real cards
         names = [type(o).__name__ for o in s.operations]
         if 'HoleCardsShowingOrMucking' in names[:names.index('HoleDealing') if 'HoleDealing' in names else len(names)]:
             return      # finding F17 (C16): a show before the deal
@@ -137,9 +138,10 @@ class C17Acpc(Monitor):
                         self.report('payoffs', tag + 'pluribus_payoffs', f'result field {f[4]}, payoffs of the played hand {list(s.payoffs)}')
                     sess.script.append(f'acpc 1 - {n} ' + ' '.join(encode_ops(log)))
                     sess.expect.append(f'Z {f[2]}:{f[3]}')
-                    mucked = any(type(o).__name__ == 'HoleCardsShowingOrMucking' and not o.hole_cards for o in s.operations)
-                    # a voluntary muck at the showdown is not something the line can say: the line shows
-                    # every seat's cards and its reader tables them all
+                    mucked = any(type(o).__name__ == 'HoleCardsShowingOrMucking' and (not o.hole_cards or not all(o.hole_cards))
+                                 for o in s.operations)
+                    # a voluntary muck at the showdown - of the whole hand or, in a partial show, of part of it - is
+                    # not something the line can say: the line shows every seat's cards and its reader tables them all
                     if not s.status and plain and not mucked:
                         # a line with one `/` per dealing action (finding F20) has too many streets to be
                         # read back: the same defect, reported under the same signature prefix
@@ -224,10 +226,17 @@ class C17Acpc(Monitor):
         for i in range(s.player_count):
             own = ''.join(repr(c) for c in dealt.get(i, []))
             vis = own if (viewer is None or viewer == i) else ''
-            if i in shown:
+            if i in shown and all(shown[i]):
                 vis = ''.join(repr(c) for c in shown[i])
+            elif i in shown and vis == '':
+                # a partial show (cash game): the other seats see the cards that were tabled; the player's own
+                # view - and the Pluribus line, which shows every seat's cards - keeps the cards he was dealt
+                vis = ''.join(repr(c) for c in shown[i] if c)
             got = seats[i] if i < len(seats) else None
-            if got != vis and not (len(dealt.get(i, [])) < 2 and viewer not in (None, i)):
+            toks_of = lambda t: sorted(t[k:k + 2] for k in range(0, len(t), 2)) if t is not None else None  # noqa: E731
+            # a seat that tabled its cards: the same cards, in the order dealt or the order tabled
+            same = got == vis or (i in shown and toks_of(got) == toks_of(vis))
+            if not same and not (len(dealt.get(i, [])) < 2 and viewer not in (None, i)):
                 self.report('cards', tag + 'hole_field', f'{what}: hole field {hole!r}: seat {i} shows {got!r}, visible cards {vis!r}')
         bw, prev_b = [], False
         for o in s.operations:
